@@ -81,7 +81,7 @@ var digests = func() []string {
 var tags = []string{"v1", "v2", "v3", "v4"}
 
 type registry struct {
-	Tags    map[string]int // tag -> index into digests
+	TagTo   map[string]int // tag -> index into digests
 	Failing bool           // every Head fails (registry down / unauthorized)
 	heads   int
 }
@@ -124,7 +124,7 @@ func (r *registry) resolve(source string) (string, bool) {
 	if i < 0 {
 		return "", false
 	}
-	d, ok := r.Tags[source[i+1:]]
+	d, ok := r.TagTo[source[i+1:]]
 	if !ok {
 		return "", false
 	}
@@ -132,9 +132,9 @@ func (r *registry) resolve(source string) (string, bool) {
 }
 
 func (r *registry) clone() *registry {
-	c := &registry{Tags: map[string]int{}, Failing: r.Failing}
-	for k, v := range r.Tags {
-		c.Tags[k] = v
+	c := &registry{TagTo: map[string]int{}, Failing: r.Failing}
+	for k, v := range r.TagTo {
+		c.TagTo[k] = v
 	}
 	return c
 }
@@ -258,13 +258,15 @@ type world struct {
 	created map[string]map[string]bool // "pkg|identity" -> revision names the manager created for it
 	st      stats
 	hist    []string
+	salt    uint64
+	draws   uint64
 }
 
 func newWorld(fl flavour, fail func(string, ...any)) *world {
 	w := &world{sim: verifsim.New(verifsim.NewScheme()), fl: fl, fail: fail, created: map[string]map[string]bool{}}
-	w.reg = &registry{Tags: map[string]int{}}
+	w.reg = &registry{TagTo: map[string]int{}}
 	for i, t := range tags {
-		w.reg.Tags[t] = i
+		w.reg.TagTo[t] = i
 	}
 	w.sim.AddMonitor(w.monitor)
 	return w
@@ -739,8 +741,8 @@ func callName(r *verifsim.Run, k int) string {
 
 var pkgNames = []string{"alpha", "beta"}
 
-func genLimit(t *rapid.T) *int64 {
-	switch rapid.IntRange(0, 9).Draw(t, "limit") {
+func (w *world) genLimit(t *rapid.T) *int64 {
+	switch w.uniform(t, "limit", 10) {
 	case 0:
 		return nil
 	case 1, 2:
@@ -754,10 +756,10 @@ func genLimit(t *rapid.T) *int64 {
 
 func ptr64(i int64) *int64 { return &i }
 
-func genSpec(t *rapid.T) pkgSpec {
+func (w *world) genSpec(t *rapid.T) pkgSpec {
 	return pkgSpec{
 		Source:     rapid.SampledFrom(allSources()).Draw(t, "source"),
-		Limit:      genLimit(t),
+		Limit:      w.genLimit(t),
 		Activation: rapid.SampledFrom([]string{"", "Automatic", "Automatic", "Manual"}).Draw(t, "activation"),
 		PullPolicy: rapid.SampledFrom([]string{"", "Always", "IfNotPresent", "IfNotPresent", "Never"}).Draw(t, "pull"),
 	}
@@ -772,8 +774,23 @@ func genPlan(t *rapid.T) map[int]verifsim.Fault {
 	return plan
 }
 
+// uniform draws an (approximately) uniformly distributed value in [0,n). rapid's
+// integer generators are deliberately biased towards small values, which would
+// distort the action weights below; the drawn value is therefore mixed with a
+// per-case salt and a counter. Everything still derives from rapid draws only.
+func (w *world) uniform(t *rapid.T, label string, n int) int {
+	w.draws++
+	x := rapid.Uint64().Draw(t, label) ^ (w.salt * 0x9e3779b97f4a7c15) ^ (w.draws * 0xbf58476d1ce4e5b9)
+	x ^= x >> 30
+	x *= 0xbf58476d1ce4e5b9
+	x ^= x >> 27
+	x *= 0x94d049bb133111eb
+	x ^= x >> 31
+	return int(x % uint64(n))
+}
+
 func (w *world) pickPkg(t *rapid.T) string {
-	if rapid.IntRange(0, 4).Draw(t, "pkg") == 0 {
+	if w.uniform(t, "pkg", 5) == 0 {
 		return pkgNames[1]
 	}
 	return pkgNames[0]
@@ -810,7 +827,7 @@ func (w *world) rollbackToOldest(t *rapid.T, pkg string) bool {
 		src := digestSource(d)
 		if d >= 5 || rapid.Bool().Draw(t, "bytag") {
 			tag := rapid.SampledFrom(tags).Draw(t, "tag")
-			w.reg.Tags[tag] = d
+			w.reg.TagTo[tag] = d
 			src = tagSource(tag)
 		}
 		w.editPackage(pkg, func(spec map[string]any) {
@@ -862,7 +879,7 @@ func (w *world) upgrade(t *rapid.T, pkg string) {
 	src := digestSource(d % 5)
 	if d >= 5 || rapid.Bool().Draw(t, "bytag") {
 		tag := rapid.SampledFrom(tags).Draw(t, "tag")
-		w.reg.Tags[tag] = d
+		w.reg.TagTo[tag] = d
 		src = tagSource(tag)
 	}
 	w.editPackage(pkg, func(spec map[string]any) { spec["package"] = src })
@@ -881,7 +898,7 @@ func (w *world) step(t *rapid.T, rec *verifkit.Recorder, i int, sweeping bool) {
 		}
 		w.reconcile(pkg, plan, where)
 	}
-	a := rapid.IntRange(0, 99).Draw(t, "action")
+	a := w.uniform(t, "action", 100)
 	switch {
 	case a < 26:
 		rec.Label("act:reconcile")
@@ -903,7 +920,9 @@ func (w *world) step(t *rapid.T, rec *verifkit.Recorder, i int, sweeping bool) {
 				doReconcile(nil)
 			}
 		} else {
-			rec.Label("act:rollback-to-oldest-digest(no history yet)")
+			rec.Label("act:upgrade (instead of a rollback: fewer than 2 revisions)")
+			w.upgrade(t, pkg)
+			doReconcile(nil)
 		}
 	case a < 60:
 		rec.Label("act:set-source")
@@ -912,7 +931,7 @@ func (w *world) step(t *rapid.T, rec *verifkit.Recorder, i int, sweeping bool) {
 		w.logf("set %s source=%s", pkg, short(src))
 	case a < 68:
 		rec.Label("act:set-history-limit")
-		l := genLimit(t)
+		l := w.genLimit(t)
 		w.editPackage(pkg, func(spec map[string]any) {
 			if l == nil {
 				delete(spec, "revisionHistoryLimit")
@@ -951,7 +970,7 @@ func (w *world) step(t *rapid.T, rec *verifkit.Recorder, i int, sweeping bool) {
 		rec.Label("act:registry-retag")
 		tag := rapid.SampledFrom(tags).Draw(t, "tag")
 		d := rapid.IntRange(0, len(digests)-1).Draw(t, "digest")
-		w.reg.Tags[tag] = d
+		w.reg.TagTo[tag] = d
 		w.logf("registry: %s -> %s", tag, digests[d][:4])
 	case a < 85:
 		rec.Label("act:registry-up/down")
@@ -1044,9 +1063,10 @@ func (w *world) finish(rec *verifkit.Recorder) {
 func setup(t *rapid.T, rec *verifkit.Recorder) *world {
 	fl := rapid.SampledFrom(flavours).Draw(t, "flavour")
 	w := newWorld(fl, func(f string, a ...any) { t.Fatalf(f, a...) })
+	w.salt = rapid.Uint64().Draw(t, "salt")
 	rec.Label("flavour:" + fl.Kind)
 	for _, p := range pkgNames {
-		w.createPackage(p, genSpec(t))
+		w.createPackage(p, w.genSpec(t))
 	}
 	return w
 }
@@ -1058,7 +1078,7 @@ func TestVerifC14Histories(t *testing.T) {
 	rapid.Check(t, func(t *rapid.T) {
 		rec.Eval()
 		w := setup(t, rec)
-		n := rapid.IntRange(12, 45).Draw(t, "nsteps")
+		n := 12 + w.uniform(t, "nsteps", 34)
 		for i := 0; i < n; i++ {
 			w.step(t, rec, i, false)
 		}
@@ -1076,7 +1096,7 @@ func TestVerifC14Sweep(t *testing.T) {
 	rapid.Check(t, func(t *rapid.T) {
 		rec.Eval()
 		w := setup(t, rec)
-		n := rapid.IntRange(6, 16).Draw(t, "nsteps")
+		n := 6 + w.uniform(t, "nsteps", 11)
 		for i := 0; i < n; i++ {
 			w.step(t, rec, i, true)
 		}
@@ -1128,7 +1148,7 @@ func TestVerifC14PinnedRollbackToOldest(t *testing.T) {
 							t.Fatalf("harness: expected %d revisions before the rollback, have %s", limit+2, revString(w.revisions("alpha")))
 						}
 						if byTag {
-							w.reg.Tags["v4"] = 0
+							w.reg.TagTo["v4"] = 0
 							w.setSource("alpha", tagSource("v4"))
 						} else {
 							w.setSource("alpha", digestSource(0))
